@@ -207,13 +207,35 @@ pub fn run(tier: Tier, seed: u64) -> i32 {
         total.merge(st);
     }
     }
+    // far beyond the enumerated scope: 70000 blank and comment lines above a row
+    {
+        let sigs = sigs(0);
+        let mut text = String::from("\n\nA Q\n");
+        for j in 0..70_000 {
+            text.push_str(if j % 3 == 0 { "# c\n" } else if j % 3 == 1 { "\r\n" } else { "\n" });
+        }
+        text.push_str("X 1\nloop(i,2)\n\nC 1\nend loop");
+        let script = vec![Step::Ans(vec![("Q".into(), V::Num(3)), ("i".into(), V::Num(202))])];
+        let mut opts = RunOpts::new(20);
+        opts.repeat_last = true;
+        opts.budget = 10_000_000;
+        let obs = run_dynamic(&text, &sigs, true, &script, &opts);
+        let lines: Vec<usize> = obs.items.iter().filter_map(|i| if let ObsItem::Row(r) = i { Some(r.line) } else { None }).collect();
+        let want: Vec<usize> = vec![70_004, 70_004, 70_007, 70_007, 70_007, 70_007, 70_007, 70_007];
+        total.evals += 1;
+        total.nontrivial += 1;
+        total.witness("row_on_a_line_beyond_65535");
+        if lines != want {
+            total.violation("line", 1 << 60, format!("a text with 70000 blank/comment lines after the header: rows report lines {lines:?}, expected {want:?}"), || dyn_replay(&text, &sigs, true, &script, &opts, want.iter().map(|l| format!("row from line {l}")).collect(), &obs, "line"));
+        }
+    }
     let meta = CheckMeta {
         id: "C19",
         tier,
         seed,
         rule: "every program of the space that yields at least one row x every layout with at most 2 deviations from the canonical one-statement-per-line layout; the expected line of each row is recorded by the generator when it lays the text out; dynamic API, static API (when the program is static) and the same text loaded through a generated .dig document; non-trivial = at least one deviation".into(),
         assumptions: vec!["the generating printer (layout.rs) is the oracle for line numbers; only the line field is compared here".into()],
-        required_witnesses: vec!["blank_line_before_header", "comment_line_inserted", "blank_line_inserted", "crlf", "trailing_comment", "no_final_newline", "static_api_lines_compared", "loaded_from_dig_document", "companion_iterator_advanced_in_between"],
+        required_witnesses: vec!["blank_line_before_header", "comment_line_inserted", "blank_line_inserted", "crlf", "trailing_comment", "no_final_newline", "static_api_lines_compared", "loaded_from_dig_document", "companion_iterator_advanced_in_between", "row_on_a_line_beyond_65535"],
         exhaustive_note: "all programs x all layouts within the bounds (K=4 in the thorough tier with single deviations)".into(),
         e1: false,
     };
